@@ -211,6 +211,8 @@ type State struct {
 	initMod bool
 	dead    bool
 	idx     []*Term // index terms read on this path (instantiation candidates)
+	lastCut int
+	pcSet   map[*Term]bool
 }
 
 func newState() *State {
@@ -228,6 +230,7 @@ func (s *State) clone() *State {
 		iters:   make(map[ssa.Value]*iterInfo, len(s.iters)),
 		initMod: s.initMod,
 		idx:     append([]*Term(nil), s.idx...),
+		lastCut: s.lastCut,
 	}
 	for k, v := range s.env {
 		n.env[k] = v
@@ -267,11 +270,23 @@ func (s *State) assume(t *Term) {
 		}
 		return
 	}
+	if s.pcSet == nil {
+		s.pcSet = make(map[*Term]bool, len(s.pc)+16)
+		for _, x := range s.pc {
+			s.pcSet[x] = true
+		}
+	}
+	if s.pcSet[t] {
+		return
+	}
+	s.pcSet[t] = true
 	s.pc = append(s.pc, t)
 }
 
 // substVar replaces a variable by a ground value everywhere in the state.
-func (s *State) substVar(v, g *Term) {
+func (s *State) substVar(v, g *Term) { s.substVarOpt(v, g, true) }
+
+func (s *State) substVarOpt(v, g *Term, keep bool) {
 	m := map[*Term]*Term{v: g}
 	for k, t := range s.env {
 		if t.Extra == nil {
@@ -306,7 +321,11 @@ func (s *State) substVar(v, g *Term) {
 		}
 	}
 	// keep the binding itself so that obligations still mention the parameter
-	s.pc = append(pc, mk("=", SBool, v, g))
+	if keep {
+		pc = append(pc, mk("=", SBool, v, g))
+	}
+	s.pc = pc
+	s.pcSet = nil
 	for _, f := range s.frames {
 		for i, b := range f.bindings {
 			f.bindings[i] = Subst(b, m)
@@ -332,16 +351,121 @@ func (s *State) noteIndex(i *Term) {
 // terms read on the path (a cheap, sound substitute for solver-side matching).
 func (s *State) instances(extra []*Term) []*Term {
 	cands := append(append([]*Term(nil), s.idx...), extra...)
+	return instancesOf(s.pc, cands)
+}
+
+// instancesOf instantiates the quantified facts among pc at the candidate terms.
+// triggersOf: the smallest select/application subterms of body that mention the bound variable.
+func triggersOf(body, bv *Term) []*Term {
+	var out []*Term
+	seen := map[*Term]bool{}
+	var rec func(x *Term) bool // reports whether x mentions bv
+	rec = func(x *Term) bool {
+		if x == bv {
+			return true
+		}
+		if !x.open || seen[x] {
+			return false
+		}
+		seen[x] = true
+		inner := false
+		for _, a := range x.Args {
+			if rec(a) {
+				inner = true
+			}
+		}
+		if !inner {
+			return false
+		}
+		if x.Op == "select" || x.Op == "app" {
+			// keep only minimal ones: drop if an argument subtree already produced a trigger
+			minimal := true
+			for _, t := range out {
+				if mentions(x, t) {
+					minimal = false
+					break
+				}
+			}
+			if minimal && !hasOtherBVar(x, bv) {
+				// for an array read the index alone is the trigger: the array may since have been updated
+				if x.Op == "select" && !mentions(x.Args[0], bv) {
+					out = append(out, x.Args[1])
+				} else {
+					out = append(out, x)
+				}
+			}
+		}
+		return true
+	}
+	rec(body)
+	return out
+}
+
+func hasOtherBVar(x, bv *Term) bool {
+	if x.Op == "bvar" && x != bv {
+		return true
+	}
+	if !x.open {
+		return false
+	}
+	for _, a := range x.Args {
+		if hasOtherBVar(a, bv) {
+			return true
+		}
+	}
+	return false
+}
+
+var occurring map[*Term]bool
+
+func instancesOf(pcIn []*Term, cands []*Term) []*Term {
+	return instancesOfGoal(pcIn, cands, nil)
+}
+
+// instancesOfGoal instantiates the quantified facts among pc at those candidate terms for which
+// some trigger of the fact, so instantiated, already occurs in the facts or the goal.
+func instancesOfGoal(pcIn []*Term, cands []*Term, goal *Term) []*Term {
+	s := &State{pc: pcIn}
 	if len(cands) == 0 {
 		return nil
 	}
+	occ := map[*Term]bool{}
+	var mark func(x *Term)
+	mark = func(x *Term) {
+		if occ[x] {
+			return
+		}
+		occ[x] = true
+		for _, a := range x.Args {
+			mark(a)
+		}
+	}
+	for _, t := range pcIn {
+		mark(t)
+	}
+	if goal != nil {
+		mark(goal)
+	}
+	occurring = occ
+	defer func() { occurring = nil }()
 	var out []*Term
 	seen := map[*Term]bool{}
 	var visit func(t *Term)
 	visit = func(t *Term) {
-		if t.Op == "forall" && len(t.Bound) == 1 && t.Bound[0].Sort == SInt && !t.open {
+		if t.Op == "forall" && len(t.Bound) == 1 && !t.open {
 			for _, c := range cands {
-				for _, cand := range []*Term{c, Sub(c, IntLit(1))} {
+				if c.Sort != t.Bound[0].Sort {
+					continue
+				}
+				vs := []*Term{c}
+				if c.Sort == SInt {
+					vs = append(vs, Sub(c, IntLit(1)))
+				}
+				trig := triggersOf(t.Args[0], t.Bound[0])
+				for _, cand := range vs {
+					if !triggered(trig, t.Bound[0], cand) {
+						continue
+					}
 					inst := Subst(t.Args[0], map[*Term]*Term{t.Bound[0]: cand})
 					if !inst.IsTrue() && !seen[inst] && !inst.open {
 						seen[inst] = true
@@ -356,12 +480,40 @@ func (s *State) instances(extra []*Term) []*Term {
 				visit(a)
 			}
 		}
+		if t.Op == "or" {
+			// instances under each disjunct, recombined as a disjunction
+			var ds []*Term
+			useful := false
+			for _, a := range t.Args {
+				saved := out
+				out = nil
+				visit(a)
+				if len(out) > 0 {
+					useful = true
+				}
+				ds = append(ds, And(append([]*Term{}, out...)...))
+				out = saved
+			}
+			if useful {
+				inst := Or(ds...)
+				if !inst.IsTrue() && !seen[inst] {
+					seen[inst] = true
+					out = append(out, inst)
+				}
+			}
+		}
 		if t.Op == "=>" && t.Args[1].Op == "forall" {
 			// guarded fact: guard => forall ...
 			g := t.Args[0]
 			f := t.Args[1]
-			if len(f.Bound) == 1 && f.Bound[0].Sort == SInt && !f.open {
+			if len(f.Bound) == 1 && !f.open {
 				for _, c := range cands {
+					if c.Sort != f.Bound[0].Sort {
+						continue
+					}
+					if !triggered(triggersOf(f.Args[0], f.Bound[0]), f.Bound[0], c) {
+						continue
+					}
 					inst := Implies(g, Subst(f.Args[0], map[*Term]*Term{f.Bound[0]: c}))
 					if !inst.IsTrue() && !seen[inst] && !inst.open {
 						seen[inst] = true
@@ -377,31 +529,42 @@ func (s *State) instances(extra []*Term) []*Term {
 	// one more round: quantifiers nested inside the instances just produced
 	first := append([]*Term(nil), out...)
 	for _, t := range first {
-		var inner func(x *Term)
-		inner = func(x *Term) {
+		var inner func(x *Term, guards []*Term)
+		inner = func(x *Term, guards []*Term) {
 			switch x.Op {
 			case "forall":
-				visit(x)
+				if len(guards) == 0 {
+					visit(x)
+				} else {
+					visit(Implies(And(guards...), x))
+				}
 			case "and":
 				for _, a := range x.Args {
-					inner(a)
+					inner(a, guards)
 				}
 			case "=>":
-				if x.Args[1].Op == "forall" || x.Args[1].Op == "and" {
-					visit(x)
-					if x.Args[1].Op == "and" {
-						for _, a := range x.Args[1].Args {
-							if a.Op == "forall" {
-								visit(Implies(x.Args[0], a))
-							}
-						}
-					}
-				}
+				inner(x.Args[1], append(append([]*Term{}, guards...), x.Args[0]))
 			}
 		}
-		inner(t)
+		inner(t, nil)
 	}
 	return out
+}
+
+// triggered: some trigger, instantiated at cand, is a term that already occurs.
+func triggered(trig []*Term, bv, cand *Term) bool {
+	if occurring == nil || cand.Sort.Kind == KDT {
+		return true
+	}
+	if len(trig) == 0 {
+		return true
+	}
+	for _, t := range trig {
+		if occurring[Subst(t, map[*Term]*Term{bv: cand})] {
+			return true
+		}
+	}
+	return false
 }
 
 func (s *State) lw() *Term { return Sub(s.lwBase, IntLit(s.lwOff)) }
